@@ -101,6 +101,30 @@ pub fn generate(scn: &dyn Scenario, rng: &mut Prng, tier: Tier) -> Spec {
     spec
 }
 
+/// Runs `f` on the thread the spec asks for (see `Spec.thread`): this one, or a freshly spawned one
+/// with a 64 MiB stack (named or not). Used by every mode that executes a spec.
+pub fn on_spec_thread<R: Send>(spec: &Spec, f: impl FnOnce() -> R + Send) -> Option<R> {
+    if spec.thread == 0 {
+        return Some(f());
+    }
+    let mut b = std::thread::Builder::new().stack_size(64 << 20);
+    if spec.thread == 2 {
+        b = b.name("application-worker".into());
+    }
+    std::thread::scope(|sc| match b.spawn_scoped(sc, f) {
+        Ok(h) => h.join().ok(),
+        Err(_) => None,
+    })
+}
+
+/// the part of a run's environment that is plain process state (logger level, call-site mode, placement);
+/// also applied by the modes that execute a corpus spec directly
+pub fn set_run_environment(spec: &Spec) {
+    log::set_max_level(if spec.logger { log::LevelFilter::Trace } else { log::LevelFilter::Off });
+    crate::gens::set_call_generic(spec.generic);
+    crate::gens::set_place(spec.place);
+}
+
 pub fn execute_guarded(scn: &dyn Scenario, spec: &Spec, st: &mut Stats) -> RunEnd {
     crate::gens::set_call_generic(spec.generic);
     crate::gens::set_place(spec.place);
@@ -455,7 +479,9 @@ pub fn parent(scn: &dyn Scenario, tier: Tier, seed: u64) -> i32 {
     // A worker killed by a signal (stack overflow, abort): for C14 that is a violation - find the
     // run, shrink it with fresh processes, report it. Other properties cannot decide anything then.
     let mut crash_lines: Vec<String> = Vec::new();
-    if id == "C14" && !died.is_empty() {
+    // (the functional properties as well: an operation that kills the process did not return what they demand)
+    let crash_counts = matches!(id, "C14" | "C05" | "C08" | "C09" | "C10" | "C11" | "C12" | "C13" | "C16");
+    if crash_counts && !died.is_empty() {
         let replays = verif_dir().join("replays");
         std::fs::create_dir_all(&replays).ok();
         for w in &died {
@@ -465,7 +491,7 @@ pub fn parent(scn: &dyn Scenario, tier: Tier, seed: u64) -> i32 {
                 let path = replays.join(format!("{}-{}-{}.json", id, seed, idx));
                 let mut rf = ReplayFile {
                     property: id.to_string(),
-                    class: "C14/crash".into(),
+                    class: format!("{}/crash", id),
                     key: format!("{}:{}", spec.kind.map(|k| k.name()).unwrap_or("?"), spec.variant),
                     detail: format!("run {} kills the process (stack overflow / abort) instead of returning", idx),
                     verif_seed: seed,
@@ -989,10 +1015,12 @@ pub fn parent_c18(scn: &dyn Scenario, tier: Tier, seed: u64, bins: &[(String, St
     let kf = load_known_findings();
     let replays = verif_dir().join("replays");
     let mut seen_idx: Vec<u64> = Vec::new();
+    let mut tried_idx: Vec<u64> = Vec::new();
     for (idx, a, b) in &diffs {
-        if seen_idx.contains(idx) || seen_idx.len() >= 3 {
+        if seen_idx.contains(idx) || seen_idx.len() >= 3 || tried_idx.len() >= 24 || tried_idx.contains(idx) {
             continue;
         }
+        tried_idx.push(*idx);
         seen_idx.push(*idx);
         // regenerate the spec of that run and locate the first differing operation by running it
         // in both configurations
@@ -1047,6 +1075,13 @@ pub fn parent_c18(scn: &dyn Scenario, tier: Tier, seed: u64, bins: &[(String, St
             let _ = &mut b;
         }
         let (a, b) = (&a, &b);
+        if va == vb && va == vec![0xDEAD_DEAD] {
+            // the run kills the process in EVERY configuration: the same behaviour everywhere, so nothing for
+            // this property to report (C14 reports the crash itself)
+            st.count("probe:run_kills_every_configuration");
+            seen_idx.pop();
+            continue;
+        }
         if va == vb {
             harness_errors.push(format!("digest difference of run {} between {} and {} did not reproduce in fresh processes", idx, a, b));
             continue;
